@@ -202,6 +202,19 @@ CHECKS['C13'] = dict(
          'uses 0.25 s multiples where float arithmetic is exact); NaN/-inf bounds and out-of-order P1 times excluded; float() external '
          'to parse; intersect equation under hypothesis Compatible (same relative origin). Two defects fixed in /repo (bd1cbd4, 54efc03).')
 
+CHECKS['C07'] = dict(
+    text='Literal executable Lean model of OnByte/Resync/OnData/SetBuffer (termination of the Resync loop proved on a lexicographic '
+         'measure) shown equal to the shared scan Cfg.run (cfgCxx capacity): callbacks = the scan\'s messages for any stream, chunking, '
+         'capacity and after Reset; OnData returns the summed dispatched sizes; chunking independence incl. internal state; every '
+         'buffer index accessed in any reachable state is below capacity_bytes_, the buffer address is 4-aligned and inside the '
+         'caller\'s storage; same messages as the Python decoder with max payload capacity-24 (capacity <= 24+2^24). The C++ harness '
+         'is compiled from src/ on every run under ASan/UBSan with exact-size misaligned buffers and compared per call with the Lean '
+         'driver; oracles: the scan and the real Python decoder.',
+    ref='4 C07', technique='Lean 4 refinement proof (literal framer model -> re-feed machine -> scan spec) + inductive safety invariant; ASan/UBSan correspondence',
+    note='Memory safety is a theorem on the model\'s explicit indices; the compiled code is validated under ASan/UBSan on the '
+         'correspondence inputs. Two heap overflows fixed in /repo (c9bc15e, 51c058c). Trusted: Lean kernel + 3 axioms; harness; '
+         'operator new[] 4-byte aligned; CRC-32 as in Model/Crc32.lean.')
+
 NOT_APPLICABLE = []
 
 
